@@ -21,6 +21,10 @@ func (Engine) Run(c *choice.Src, o engine.Opt) (out engine.Out) {
 		runChaos(c, o, &out)
 		return
 	}
+	if o.Mode == "craft" {
+		runCraft(c, o, &out)
+		return
+	}
 	w := &World{c: c, o: o, out: &out, prop: o.Property}
 	defer func() {
 		out.Trace = w.trace
